@@ -539,6 +539,9 @@ type polyCase struct {
 	// Scales rescale constraint i (normal and bound together) by 10^Scales[i]: the same half-space, so the
 	// same polytope; the library documents its tolerance as scaling with the normals.
 	Scales []float64 `json:"scales,omitempty"`
+	// Dups lists constraints that appear a second time (index, and the power of ten by which the copy's normal and
+	// bound are scaled): the same half-space twice, as when the constraints of two polytopes are put together.
+	Dups [][2]int `json:"dups,omitempty"`
 }
 
 func checkPolytope(c polyCase, o *kit.Obs) error {
@@ -563,6 +566,12 @@ func checkPolytope(c polyCase, o *kit.Obs) error {
 			p[i] = &model3d.LinearConstraint{Normal: p[i].Normal.Scale(f), Max: p[i].Max * f}
 			o.Label("rescaled-constraint")
 		}
+	}
+	for _, d := range c.Dups {
+		l := p[d[0]%len(p)]
+		f := math.Pow(10, float64(d[1]))
+		p = append(p, &model3d.LinearConstraint{Normal: l.Normal.Scale(f), Max: l.Max * f})
+		o.Label("duplicated-constraint")
 	}
 	tris := m3.Tris(p.Mesh())
 	o.NonTrivial()
@@ -590,6 +599,15 @@ func genPolytope(t *rapid.T) polyCase {
 	if rapid.IntRange(0, 2).Draw(t, "pyramid") == 0 {
 		c.Apex = rapid.IntRange(4, 8).Draw(t, "apex")
 		n = rapid.IntRange(0, 2).Draw(t, "ncuts2")
+	}
+	if rapid.IntRange(0, 3).Draw(t, "dups") == 0 {
+		if kit.Excluded("polytope-duplicate-constraint") {
+			kit.CountExcluded("polytope-duplicate-constraint")
+		} else {
+			for i, k := 0, rapid.IntRange(1, 2).Draw(t, "ndups"); i < k; i++ {
+				c.Dups = append(c.Dups, [2]int{rapid.IntRange(0, 30).Draw(t, "dupidx"), rapid.SampledFrom([]int{0, 0, 1, -3, 6}).Draw(t, "dupexp")})
+			}
+		}
 	}
 	if rapid.Bool().Draw(t, "rescale") {
 		for i := 0; i < 6+c.Apex+n; i++ {
@@ -826,6 +844,14 @@ func TestProp(t *testing.T) {
 				for i := 0; i < n; i++ {
 					c.Tree.Kids = append(c.Tree.Kids, &gen.Node2{Op: "prim", Shape: &gen.Shape2{Kind: "circle", A: gen.Vec2(t, 1, "c"), R: c.Big * gen.F(t, 2.5, 5, "r")}})
 				}
+				if rapid.IntRange(0, 2).Draw(t, "c2fbox") == 0 {
+					// a box (sharp corners, which a coarse outline cuts off) meshed with a fine spacing many times
+					// smaller than the coarse one: the fine pass has to search well beyond the coarse outline
+					c.Big = c.Delta * gen.LogF(t, 8, 64, "bigratio")
+					ctr := gen.Vec2(t, 1, "bc")
+					h := kit.V2{c.Big * gen.F(t, 2.6, 4, "bhx"), c.Big * gen.F(t, 2.6, 4, "bhy")}
+					c.Tree = &gen.Node2{Op: "join", Kids: []*gen.Node2{{Op: "prim", Shape: &gen.Shape2{Kind: "rect", A: ctr.Sub(h), B: ctr.Add(h)}}}}
+				}
 			}
 			return c
 		}, Check: checkCSG2, Fresh: true},
@@ -833,6 +859,7 @@ func TestProp(t *testing.T) {
 		kit.Clause[gen.Lattice2]{Name: "C01/bitmap/random", Quick: 1500, Thorough: 40000, Gen: func(t *rapid.T) gen.Lattice2 { return gen.Lattice2Gen(t, 9, "bitmap") }, Check: checkBitmap},
 		kit.Clause[paramCase]{Name: "C01/gen/parametric", Quick: 600, Thorough: 15000, Gen: genParam, Check: checkParam},
 		kit.Clause[polyCase]{Name: "C01/gen/polytope", Quick: 3000, Thorough: 60000, Gen: genPolytope, Check: checkPolytope},
+		kit.Clause[poly2Case]{Name: "C01/gen/polytope2d", Quick: 3000, Thorough: 60000, Gen: genPoly2, Check: checkPoly2},
 		kit.Clause[rectSetCase]{Name: "C01/gen/rectset", Quick: 6000, Thorough: 120000, Gen: genRectSet, Check: checkRectSet},
 		kit.Clause[hmCase]{Name: "C01/gen/heightmap", Quick: 600, Thorough: 15000, Gen: genHM, Check: checkHM},
 	)
